@@ -776,6 +776,9 @@ class Exec:
             return Opaque("bytes", info=c[2:-1])
         m = re.match(r"^'(.*)'$", c, re.S)
         if m:
+            mu = re.match(r"^\\u\{([0-9a-fA-F]+)\}$", m.group(1))
+            if mu:
+                return mk_int(int(mu.group(1), 16), "char")
             ch = _unescape(m.group(1))
             return mk_int(ord(ch), "char")
         if c == "()":
